@@ -110,7 +110,11 @@ func canonOp(op dag.Op) string {
 	case *dag.Fork:
 		var legs []string
 		for _, p := range op.Paths {
-			legs = append(legs, canonSeq(p))
+			l := canonSeq(p)
+			if l == "" {
+				l = "pass" // a leg that only carries the output operator
+			}
+			legs = append(legs, l)
 		}
 		return "fork(" + strings.Join(legs, " => ") + ")"
 	case *dag.Switch:
@@ -120,7 +124,11 @@ func canonOp(op dag.Op) string {
 			if c.Expr != nil {
 				e = zfmt.DAGExpr(c.Expr)
 			}
-			cs = append(cs, e+" -> "+canonSeq(c.Path))
+			l := canonSeq(c.Path)
+			if l == "" {
+				l = "pass"
+			}
+			cs = append(cs, e+" -> "+l)
 		}
 		s := "switch("
 		if op.Expr != nil {
